@@ -900,6 +900,14 @@ func (r *runner) explainMissing(q Query, missing []map[string]any, driving []*F)
 		}) {
 			return sigAllEmptyArray
 		}
+		// _ilike with a pattern x%y: the index lowers the value but splits the pattern before
+		// lowering it, so the two halves keep their case
+		if l.Cmp == "_ilike" && l.Arr == "" && len(l.Path) == 0 {
+			pat, _ := r.resolve(l.Val).(string)
+			if i := strings.Index(pat, "%"); i > 0 && i < len(pat)-1 && pat != strings.ToLower(pat) {
+				return sigIlikeInfixCase
+			}
+		}
 		// _nlike / _nilike on an indexed string: rows whose value is null
 		if (l.Cmp == "_nlike" || l.Cmp == "_nilike") && l.Arr == "" && fd.Kind != "json" &&
 			every(func(row map[string]any) bool { return row[sel] == nil }) {
@@ -957,8 +965,20 @@ func (r *runner) explainDuplicated(q Query, dup []map[string]any, driving []*F) 
 		return sigInDuplicates
 	}
 	// a composite index with an array field read without any condition (order only): one row per entry
-	_, byFilter := r.chosenIndex(q)
-	if afs := r.compositeArrayFields(q); len(afs) > 0 && !byFilter {
+	// (no condition: none at all, or only below _or / _not, which the index does not use)
+	conjunctive := false
+	if i, ok := r.chosenIndex(q); ok {
+		inIndex := map[string]bool{}
+		for _, f := range r.c.Idx[i].Fields {
+			inIndex[fdef(f.F).selName()] = true
+		}
+		walkLeaves(q.Filter, false, func(l *F, underNot bool) {
+			if inIndex[leafKey(l)] && !underNot && !underMultiOr(q.Filter, l, false) {
+				conjunctive = true
+			}
+		})
+	}
+	if afs := r.compositeArrayFields(q); len(afs) > 0 && !conjunctive {
 		all := true
 		for _, row := range dup {
 			some := false
